@@ -286,3 +286,5 @@ def run(ctx, out):
             if (m["ok"] == 1) != (rep["exit"] == 0):
                 out.corr("R1-noclobber-result: model ok=%s, xcp exit %d" % (m["ok"], rep["exit"]), rep,
                          [repr(a) for a in m["acts"] if a[0] == "err"][:3], rep["exit"])
+    import destmatrix
+    destmatrix.run(ctx, out, "C08", opts=["no-clobber"])
